@@ -1,6 +1,6 @@
 from driver import Unit
 
-NAMES = {0: "int", 1: "pod", 2: "tcm", 3: "tmo"}
+NAMES = {0: "int", 1: "pod", 2: "tcm", 3: "tmo", 4: "il"}
 
 
 def u(elem, tag, caps, quick=True, nocc=False):
@@ -33,6 +33,7 @@ P = dict(
         u(1, "a", "0,1,3"), u(1, "b", "4,16,255", quick=False),
         u(2, "a", "0,1,2,3", nocc=True), u(2, "b", "16,254,255,256"), u(2, "c", "4", quick=False),
         u(3, "a", "0,1,2,3"), u(3, "b", "4,16,255,256", quick=False),
+        u(4, "a", "0,1,2,3"), u(4, "b", "4,16,256", quick=False),
     ],
     floor={"quick": 100000, "thorough": 1000000},
     assumptions=["libstdc++ 12 std::vector is a correct reference", "gcc 12 ASan/UBSan see accesses outside exact-size heap blocks; accesses inside the vector object are only visible through the model or the lifetime registry"],
